@@ -15,8 +15,10 @@ for pid in sys.argv[1:]:
          .replace("@FILES@", ", ".join(p["anchors"]["files"])))
     if os.environ.get("SEED_AVOID"):
         nd = json.load(open("/verif/seeded/needs.json"))
-        if pid in nd:
-            s += ("\nAn earlier, independent attempt already produced this kind of change, so do something DIFFERENT IN KIND "
-                  "(another mechanism, another part of the code involved, another clause of the statement): " + nd[pid].split(" [second-round")[0] + "\n")
+        prev = [nd[k].split(" [second-round")[0] for k in (pid, pid + ".2", pid + ".3") if k in nd]
+        if prev:
+            s += ("\nEarlier, independent attempts already produced these kinds of change, so do something DIFFERENT IN KIND "
+                  "(another mechanism, another part of the code involved, another clause of the statement, another "
+                  "configuration):\n" + "".join(f"  - {p}\n" for p in prev))
     open(f"{root}/{pid}.prompt", "w").write(s)
     print(pid, wt)
